@@ -24,6 +24,11 @@ without a filter.  C06.6 the unplaced-rank symbol written by the producer is
 the one compared by the placement loop, whose branch neither places nor
 keeps the instance.  C06.7 an explicit manifest priority (0 included) is
 honoured: no truthiness default on the numeric field.
+Added by the seeding rounds - C06.2 every parameter of Allocation.update is
+applied on every path; C06.3 the priority-0 override keys on the instance's
+priority; C06.5 single membership (an instance joins a queue only after
+leaving app.allocation) and the merge is heapq.merge over every sub-queue plus
+the own queue; C06.7 an explicit priority 0 is honoured.
 Does NOT decide rank monotonicity and per-allocation order through the
 recursive re-scored merge (numeric, depends on the whole tree) - the larger
 half of the property.
